@@ -16,6 +16,8 @@ NEWVERS = ["0", "4", "5"]      # declared by the evolution only
 # a table is a list of line descriptions:
 #   {"k": "setup", "optional": bool, "name": str, "spec": None | {"v": ver} | {"e": expr} | {"v": ver, "e": expr},
 #    "flags": [..], "deco": {...}}           deco = purely syntactic choices (quotes, white space, comment, bracket)
+#   {"k": "unsetup", "optional": bool, "name": str, "flags": [..]}     unsetupRequired / unsetupOptional(name [-j]): takes a product
+#                                             (with -j: that product alone) away again; intermediate tables only
 #   {"k": "cmd", "text": str}                 any other command, passed to the table parser as it is
 #   {"k": "raw", "text": str}                 blank line / comment / brace line / anything else, verbatim
 
@@ -46,9 +48,16 @@ def render_setup(l):
     return "%s%s(%s)%s" % (d.get("lead", ""), cmd, body, d.get("trail", ""))
 
 
+def render_unsetup(l):
+    cmd = "unsetupOptional" if l["optional"] else "unsetupRequired"
+    return "%s(%s)" % (cmd, " ".join([l["name"]] + list(l.get("flags") or [])))
+
+
 def render_line(l):
     if l["k"] == "setup":
         return render_setup(l)
+    if l["k"] == "unsetup":
+        return render_unsetup(l)
     return l["text"]
 
 
@@ -156,7 +165,60 @@ def gen_graph(rng, stream):
             is_top = (n == top and v == topv)
             pdep = (0.0 if lonely else 0.6) if is_top else 0.4
             decl.append([n, v, gen_table(rng, stream, i, names, vers, build, top=is_top, pdep=pdep)])
-    return {"names": names, "decl": decl, "tags": tags, "build": build, "top": [top, topv], "stream": stream}
+    g = {"names": names, "decl": decl, "tags": tags, "build": build, "top": [top, topv], "stream": stream}
+    if stream == "cf" and rng.random() < 0.3:
+        add_unsetup_lines(rng, g)
+    return g
+
+
+def reach(g, n, v):
+    """names reached from the table of (n, v) through setup lines on declared products (build versions), n excluded"""
+    tables = {(a, b): l for a, b, l in g["decl"]}
+    build, out = g["build"], []
+
+    def walk(n, v):
+        for l in tables.get((n, v), []):
+            if l["k"] == "setup" and "--external" not in (l.get("flags") or []) and l["name"] in build and l["name"] not in out:
+                out.append(l["name"])
+                if "-j" not in (l.get("flags") or []):
+                    walk(l["name"], build[l["name"]])
+    walk(n, v)
+    return out
+
+
+def add_unsetup_lines(rng, g):
+    """Intermediate tables that take a product away again: after a setup line of table (n, build[n]) an
+    unsetupRequired / unsetupOptional(X [-j]) line for an X that line brought in (X itself or something below it),
+    preferably one that has dependencies of its own (shared with the rest of the closure or not).  The graph stays a DAG by
+    name order (X comes after n), so no cycle runs through an unsetup line."""
+    topn = g["top"][0]
+    build = g["build"]
+    for n, v, lines in g["decl"]:
+        if n == topn or build.get(n) != v or rng.random() < 0.4:
+            continue
+        cands = [i for i, l in enumerate(lines) if l["k"] == "setup" and l["name"] in build and not (l.get("flags") or [])]
+        if not cands:
+            continue
+        i = rng.choice(cands)
+        m = lines[i]["name"]
+        below = [m] + reach(g, m, build[m])
+        withdeps = [x for x in below if reach(g, x, build[x])]
+        x = rng.choice(withdeps) if withdeps and rng.random() < 0.7 else rng.choice(below)
+        lines.insert(rng.randint(i + 1, len(lines)), {"k": "unsetup", "optional": rng.random() < 0.5, "name": x,
+                                                       "flags": ["-j"] if rng.random() < 0.65 else []})
+
+
+def has_unsetup(case):
+    return any(l["k"] == "unsetup" for _, _, lines in case["decl"] for l in lines)
+
+
+def unsetup_targets(case, built):
+    """names that a table of a set-up product (at its build-time version) takes away again"""
+    out = set()
+    for n, v, lines in case["decl"]:
+        if built.get(n) == v:
+            out |= {l["name"] for l in lines if l["k"] == "unsetup"}
+    return out
 
 
 def gen_evolution(rng, g):
@@ -201,7 +263,7 @@ WEIRD_SETUP = [
     "setupRequired(%(m)s -r /tmp/x)", "setupRequired(%(m)s -)", "setupRequired(%(m)s - j)", "setupRequired(%(m)s [>= 1] 1)",
     "setupRequired(%(m)s   1\t[>=\t1])", "setupRequired(%(m)s\t1)", "   setupRequired(%(m)s)   # c # d", "setupRequired(%(m)s#1)",
     "setupRequired(%(m)s <2)", "setupRequired(%(m)s>=1)", "setupRequired(%(m)s -T build)", "setupOptional(%(m)s 1 -j [>= 1] -k)",
-    "envSet(A, \"setupRequired(%(m)s)\")", "print(setupRequired(%(m)s))", "setupRequired(%(t)s)", "setupOptional(%(t)s 1)",
+    "unsetupRequired(%(m)s)", "unsetupOptional(%(m)s -j)", "envSet(A, \"setupRequired(%(m)s)\")", "print(setupRequired(%(m)s))", "setupRequired(%(t)s)", "setupOptional(%(t)s 1)",
 ]
 WEIRD_OTHER = [
     "if (type == exact) {", "if(type==exact){", "  if (type == exact) {  # pre", "} else {", "}", "  }  ", "{", "if (flavor == Linux) {",
@@ -257,6 +319,8 @@ def gen_case(rng, stream=None):
     case["opts"] = gen_opts(rng, g, True)
     if rng.random() < 0.15:
         case["opts"]["force"] = True
+    if rng.random() < 0.1:
+        case["opts"]["toplevel"] = None       # the API call without toplevelName (what `eups expandtable` does for standard input)
     case["final_newline"] = rng.random() < 0.9
     case["variants"] = []
     for _ in range(rng.choice([0, 1, 1, 2, 3])):
@@ -269,7 +333,7 @@ def gen_case(rng, stream=None):
     case["tamper"] = [rng.choice(g["names"][1:])] if rng.random() < 0.07 else []
     case["cli_check"] = rng.random() < 0.25          # also run `eups expandtable` itself and compare with the API call
     case["expanded_deps"] = []
-    if stream == "cf" and rng.random() < 0.4:       # installed products usually carry expanded tables
+    if stream == "cf" and rng.random() < 0.4 and not has_unsetup(case):       # installed products usually carry expanded tables
         case["expanded_deps"] = [[n, v] for n, v, _ in g["decl"] if (n, v) != (topn, topv) and rng.random() < 0.6]
     return case
 
